@@ -467,6 +467,7 @@ task* start_scan<Range,Body,Partitioner>::execute( execution_data& ed ) {
     }
     task* next_task = nullptr;
     if( (m_is_right_child && !treat_as_stolen) || !m_range.is_divisible() || m_partition.should_execute_range(ed) ) {
+        __TBB_VERIF_POINT(vp_scan_pass, this, m_is_final ? 1 : (m_sum_slot ? 0 : 2));
         if( m_is_final )
             m_body(m_range, final_scan_tag());
         else if( m_sum_slot )
